@@ -95,7 +95,8 @@ fn run_line(out: &mut Out, s: &mut Session, line: &str, save_dir: &str) {
             else { s.d = load(s.file).unwrap(); out.circuit(&s.export, &circuit_line(&s.d)); }
         }
         Ok(r) => {
-            if r.contains('\n') && !toks.first().map(|c| c == "t-wise").unwrap_or(false) { out.fail("multi-line-reply", &s.file.text(), &line, &r, "a one-line reply"); }
+            // "The end of an answer is indicated by a new line": one line per answer, for every command
+            if r.contains('\n') { out.fail("multi-line-reply", &s.file.text(), &line, &r, "a one-line reply"); }
             if is_err(&r) {
                 out.count(&format!("err_{}", &r[..2]), 1);
                 if simple_expected(&s.tt, &toks).as_deref() == Some("E3!") { out.count("oracle_checked_out_of_range", 1); if !r.starts_with("E3 ") { out.fail("stream-answer", &s.file.text(), &line, &r, "E3 error: not all parameters are within the boundary"); } }
